@@ -47,13 +47,16 @@ THEOREMS = [_P + n for n in [
     "Scan.tokenizer_scan_loop_shape", "Scan.parser_glue_shape",
 ]]
 
-# step budgets for the search oracle, calibrated on the clean tree (see cov["calibration"] in the evidence):
-# observed maxima over ~60k inputs were parser steps ≤ 2.9·(n+1) and ≤ 0.9·(n+1)²  (n = number of tokens),
-# tokenizer `_advance` calls ≤ 1.0·(len+1), Generator.sql calls ≤ 14·(nodes+1)
-K_PARSE = 40          # parser `_advance` calls ≤ K_PARSE · (n+1)²
-K_TOKENIZE = 12       # tokenizer `_advance` calls ≤ K_TOKENIZE · (len(sql)+1)
+# step budgets for the search oracle, calibrated on the clean tree with ≥ 10x margin (cov["calibration"] in the evidence
+# reports the maxima of every run).  Observed maxima over ~150k pipeline runs (terminating inputs): Parser._advance calls
+# ≤ 5.8·(n+1) and ≤ 2.0·(n+1)² (n = number of tokens; the quadratic ratio peaks at n = 1), parser work units
+# ≤ 67.5·(n+1) (135 units at n = 1), TokenizerCore._advance calls ≤ 1.9·(len+1), Generator.sql calls ≤ 16·(nodes+1).
+K_PARSE = 40          # Parser._advance calls ≤ K_PARSE · (n+1)²
+K_TOKENIZE = 20       # TokenizerCore._advance calls ≤ K_TOKENIZE · (len(sql)+1)
 K_GENERATE = 400      # Generator.sql activations ≤ K_GENERATE · (nodes+1)
-WATCHDOG_S = 20.0
+K_WORK = 60           # parser _match/_match_set/expression/raise_error activations ≤ K_WORK · (n+1)² + WORK_CONST (catches
+WORK_CONST = 3000     # loops that spin without ever calling _advance)
+WATCHDOG_S = 8.0
 
 
 # =========================================================================================== translate
@@ -265,6 +268,8 @@ class Monitor:
         self.t_cap = None
         self.g_calls = 0
         self.g_cap = None
+        self.w_units = 0          # parser "work": _match/_match_set/expression/raise_error activations
+        self.w_cap = None
         self.acts = None          # list of activation records when recording
         self.stack = []
         self.ttrace = None        # tokenizer trace when recording
@@ -281,6 +286,7 @@ class Monitor:
         self.orig = {
             "adv": P._advance, "try": P._try_parse, "csv": P._parse_csv, "wrapped": P._parse_wrapped,
             "tadv": T._advance, "gsql": G.sql, "ttok": T.tokenize,
+            "match": P._match, "match_set": P._match_set, "expression": P.expression, "raise_error": P.raise_error,
         }
         mon = self
         o_adv, o_try, o_csv, o_wr, o_tadv, o_gsql = (self.orig[k] for k in ("adv", "try", "csv", "wrapped", "tadv", "gsql"))
@@ -290,6 +296,14 @@ class Monitor:
             if mon.p_cap is not None and mon.p_steps > mon.p_cap:
                 raise StepBudget("parser")
             return o_adv(self, times)
+
+        def work(orig):
+            def w(self, *a, **kw):
+                mon.w_units += 1
+                if mon.w_cap is not None and mon.w_units > mon.w_cap:
+                    raise StepBudget("parser-work")
+                return orig(self, *a, **kw)
+            return w
 
         def _tadvance(self, i=1, alnum=False):
             mon.t_steps += 1
@@ -387,6 +401,10 @@ class Monitor:
             return activation("wrapped", lambda m: o_wr(self, m, optional), self, parse_method, {"optional": bool(optional)})
 
         P._advance = _advance
+        P._match = work(self.orig["match"])
+        P._match_set = work(self.orig["match_set"])
+        P.expression = work(self.orig["expression"])
+        P.raise_error = work(self.orig["raise_error"])
         P._try_parse = _try_parse
         P._parse_csv = _parse_csv
         P._parse_wrapped = _parse_wrapped
@@ -402,6 +420,10 @@ class Monitor:
             return
         _, _, parser, _, _, generator, tc, *_ = sg()
         parser.Parser._advance = self.orig["adv"]
+        parser.Parser._match = self.orig["match"]
+        parser.Parser._match_set = self.orig["match_set"]
+        parser.Parser.expression = self.orig["expression"]
+        parser.Parser.raise_error = self.orig["raise_error"]
         parser.Parser._try_parse = self.orig["try"]
         parser.Parser._parse_csv = self.orig["csv"]
         parser.Parser._parse_wrapped = self.orig["wrapped"]
@@ -411,8 +433,8 @@ class Monitor:
         self.installed = False
 
     def reset(self):
-        self.p_steps = self.t_steps = self.g_calls = 0
-        self.p_cap = self.t_cap = self.g_cap = None
+        self.p_steps = self.t_steps = self.g_calls = self.w_units = 0
+        self.p_cap = self.t_cap = self.g_cap = self.w_cap = None
 
 
 MON = Monitor()
@@ -439,8 +461,40 @@ def innermost_sqlglot_frame(e: BaseException) -> str:
     return "?"
 
 
+GENERIC_PARSE_HELPERS = {"_parse_var", "_parse_placeholder", "_parse_wrapped", "_parse_csv", "_parse_wrapped_csv", "_parse_id_var",
+                         "_parse_string", "_parse_field", "_parse_unquoted_field", "_parse_bracket", "_parse_primary", "_parse_var_or_string",
+                         "_parse_identifier", "_parse_number", "_parse_star", "_parse_null", "_parse_boolean", "_parse_parameter"}
+
+
+def cycle_frame(e: BaseException) -> str:
+    """for a RecursionError: the (alphabetically first) most frequent sqlglot function on the stack"""
+    cnt: dict = {}
+    for fr in traceback.extract_tb(e.__traceback__):
+        if "sqlglot" in fr.filename and "/vf/" not in fr.filename and fr.name.startswith("_parse_"):
+            k = os.path.basename(fr.filename)[:-3] + "." + fr.name
+            cnt[k] = cnt.get(k, 0) + 1
+    if not cnt:
+        return "?"
+    m = max(cnt.values())
+    return sorted(k for k, v in cnt.items() if v >= m - 2)[0]
+
+
+def stack_names(e: BaseException) -> list:
+    return [os.path.basename(fr.filename)[:-3] + "." + fr.name for fr in traceback.extract_tb(e.__traceback__)
+            if "sqlglot" in fr.filename and "/vf/" not in fr.filename]
+
+
+def loop_frame(e: BaseException) -> str:
+    """for an exhausted step budget: the deepest non-generic `_parse_*` method on the stack (the owner of the loop)"""
+    tb = traceback.extract_tb(e.__traceback__)
+    for fr in reversed(tb):
+        if "sqlglot" in fr.filename and "/vf/" not in fr.filename and fr.name.startswith("_parse_") and fr.name not in GENERIC_PARSE_HELPERS:
+            return os.path.basename(fr.filename)[:-3] + "." + fr.name
+    return innermost_sqlglot_frame(e)
+
+
 # ------------------------------------------------------------------------------------------- the property oracle
-def run_pipeline(sql: str, dialect: str, level: str, write: str | None = None, caps: bool = True) -> dict:
+def run_pipeline(sql: str, dialect: str, level: str, write: str | None = None, caps: bool = True, scale: float = 1.0) -> dict:
     """tokenize -> parse -> generate on the real code under the step counters. Returns a verdict record:
     {"ok": bool, "phase", "exc", "frame", "msg", "steps": {...}, "n_tokens", "parser_errors": bool}"""
     _, exp, parser, tokens, errors, generator, tc, Dialect, _ = sg()
@@ -449,7 +503,7 @@ def run_pipeline(sql: str, dialect: str, level: str, write: str | None = None, c
     lvl = errors.ErrorLevel[level]
     d = Dialect.get_or_raise(dialect or None)
     res = {"ok": True, "phase": None, "exc": None, "frame": None, "msg": None, "parser_errors": False,
-           "n_tokens": 0, "steps": {}}
+           "n_tokens": 0, "steps": {}, "running": "tokenize"}
 
     def fail(phase, e):
         res.update(ok=False, phase=phase, exc=type(e).__name__, frame=innermost_sqlglot_frame(e), msg=str(e)[:200])
@@ -471,33 +525,43 @@ def run_pipeline(sql: str, dialect: str, level: str, write: str | None = None, c
         except Exception as e:  # noqa
             return fail("tokenize", e)
         res["steps"]["tokenize"] = MON.t_steps
+        res["running"] = "parse"
         n = len(toks)
         res["n_tokens"] = n
         # ---- parse
         if caps:
-            MON.p_cap = K_PARSE * (n + 1) * (n + 1)
+            MON.p_cap = int(scale * K_PARSE * (n + 1) * (n + 1))
+            MON.w_cap = int(scale * (K_WORK * (n + 1) * (n + 1) + WORK_CONST))
         p = d.parser(error_level=lvl)
         trees = None
+        res["running"] = "parse"
         try:
             trees = p.parse(toks, sql)
         except errors.SqlglotError:
             res["steps"]["parse"] = MON.p_steps
+            res["steps"]["work"] = MON.w_units
             return res
-        except StepBudget:
-            res.update(ok=False, phase="parse", exc="StepBudget", frame="parser._advance",
-                       msg=f"more than {MON.p_cap} Parser._advance calls for {n} tokens")
+        except StepBudget as e:
+            fr = loop_frame(e)
+            res["stack"] = stack_names(e)
+            res.update(ok=False, phase="parse", exc="StepBudget", frame=fr,
+                       msg=(f"more than {MON.p_cap} Parser._advance calls" if str(e) == "parser" else
+                            f"more than {MON.w_cap} _match/_match_set/expression/raise_error calls") + f" for {n} tokens (loop in {fr})")
             return res
-        except RecursionError:
-            res["steps"]["parse"] = MON.p_steps
-            res["recursion"] = True
+        except RecursionError as e:
+            res.update(ok=False, phase="parse", exc="RecursionError", frame=cycle_frame(e),
+                       msg=f"unbounded recursion on {n} tokens after {MON.p_steps} Parser._advance calls")
             return res
         except Exception as e:  # noqa
             return fail("parse", e)
         res["steps"]["parse"] = MON.p_steps
+        res["steps"]["work"] = MON.w_units
+        res["running"] = "generate"
         has_err = bool(p.errors)
-        if not has_err and lvl == errors.ErrorLevel.IGNORE:
-            # IGNORE skips validate_expression: a tree with missing required arguments is what WARN would have
-            # recorded an error for
+        if not has_err and lvl in (errors.ErrorLevel.IGNORE, errors.ErrorLevel.WARN):
+            # IGNORE skips validate_expression: a tree with missing required arguments is what the other levels would
+            # have recorded an error for.  (WARN: dialects that delegate to an inner parser, e.g. athena, keep the
+            # recorded errors on the inner parser object.)
             try:
                 for tr in trees:
                     if tr is not None and any(nd.error_messages() for nd in tr.walk()):
@@ -527,8 +591,11 @@ def run_pipeline(sql: str, dialect: str, level: str, write: str | None = None, c
                 res.update(ok=False, phase="generate", exc="StepBudget", frame="generator.sql",
                            msg=f"more than {MON.g_cap} Generator.sql calls for {nodes} nodes")
                 return res
-            except RecursionError:
-                res["recursion"] = True
+            except RecursionError as e:
+                if nodes < 150:
+                    res.update(ok=False, phase="generate", exc="RecursionError", frame=cycle_frame(e),
+                               msg=f"unbounded recursion generating a tree of {nodes} nodes")
+                    return res
             except Exception as e:  # noqa
                 return fail("generate", e)
             res["steps"]["generate"] = max(res["steps"].get("generate", 0), MON.g_calls)
@@ -538,7 +605,7 @@ def run_pipeline(sql: str, dialect: str, level: str, write: str | None = None, c
     try:
         return with_watchdog(body)
     except _Watchdog:
-        res.update(ok=False, phase=res.get("phase") or "watchdog", exc="Timeout", frame="?", msg=f"still running after {WATCHDOG_S}s")
+        res.update(ok=False, phase=res.get("running") or "?", exc="Timeout", frame="?", msg=f"still running after {WATCHDOG_S}s")
         return res
     finally:
         MON.reset()
@@ -844,6 +911,8 @@ def skeleton(sql: str) -> str:
 
 
 def same_failure(a: dict, b: dict) -> bool:
+    if a["exc"] in ("StepBudget", "Timeout", "RecursionError"):
+        return (not b["ok"]) and a["phase"] == b["phase"] and a["exc"] == b["exc"]
     return (not b["ok"]) and a["phase"] == b["phase"] and a["exc"] == b["exc"] and a["frame"] == b["frame"] and a["parser_errors"] == b["parser_errors"]
 
 
@@ -896,24 +965,57 @@ def finding_key(verdict: dict, dialect, skel: str | None) -> str:
     return f"{base}|{dialect or 'base'}|{skel}"
 
 
+def loop_owner(sql, dialect, level, write, verdict) -> str:
+    """the method that owns a spinning loop: deepest `_parse_*` frame common to the stacks at two different budgets"""
+    v2 = run_pipeline(sql, dialect, level, write, scale=1.37)
+    a, b = verdict.get("stack") or [], v2.get("stack") or []
+    common = []
+    for x, y in zip(a, b):
+        if x != y:
+            break
+        common.append(x)
+    for name in reversed(common):
+        if name.split(".")[-1].startswith("_parse_") and name.split(".")[-1] not in GENERIC_PARSE_HELPERS:
+            return name
+    return verdict["frame"]
+
+
+def known_prefix(chk: Check, prefix: str, ctx: dict) -> bool:
+    """does a known-finding entry of this property match every key that starts with `prefix|`?  (lets the search skip
+    delta-debugging for defects that are already recorded; the entry is still matched by core on the full key)"""
+    import re
+    for k in chk._known:
+        if k.get("property") != chk.pid or k.get("kind") != "known":
+            continue
+        m = k.get("match", {})
+        if "key_regex" in m and re.fullmatch(m["key_regex"], prefix + "|any|any", re.S):
+            if all(ctx.get(ck) == cv for ck, cv in m.get("context", {}).items()):
+                return True
+    return False
+
+
 def consider(chk: Check, sql, dialect, level, write, verdict, tag="search"):
     """turn a failing verdict into a (minimised, keyed) violation report"""
     ctx = {"phase": verdict["phase"], "parser_errors": bool(verdict["parser_errors"]), "level": level}
-    if verdict["phase"] == "generate" and verdict["parser_errors"] and verdict["exc"] != "StepBudget" and verdict["exc"] != "Timeout":
-        # the known class (DESIGN §6): no point in delta-debugging thousands of these; the key keeps exception + frame
-        key = finding_key(verdict, dialect, None)
-        msql = sql
+    if verdict["exc"] == "StepBudget" and verdict["phase"] == "parse":
+        verdict = dict(verdict, frame=loop_owner(sql, dialect, level, write, verdict))
+    prefix = finding_key(verdict, dialect, None)
+    msql = sql
+    if known_prefix(chk, prefix, ctx):
+        key = prefix + f"|{dialect or 'base'}|unminimised"
     else:
-        msql = minimise(sql, dialect, level, write, verdict)
+        msql = minimise(sql, dialect, level, write, verdict, max_runs=(3 if verdict["exc"] == "Timeout" else 250))
         v2 = run_pipeline(msql, dialect, level, write)
         if same_failure(verdict, v2):
+            if v2["exc"] == "StepBudget" and v2["phase"] == "parse":
+                v2 = dict(v2, frame=loop_owner(msql, dialect, level, write, v2))
             verdict = v2
         else:
             msql = sql
         key = finding_key(verdict, dialect, skeleton(msql))
     what = (f"{verdict['phase']} of {msql!r} (dialect={dialect or 'base'}, error_level={level}"
             f"{', write=' + str(write) if write is not None else ''}) "
-            + (f"exceeded its step budget: {verdict['msg']}" if verdict["exc"] in ("StepBudget", "Timeout")
+            + (f"did not finish within its budget: {verdict['msg']}" if verdict["exc"] in ("StepBudget", "Timeout", "RecursionError")
                else f"leaked {verdict['exc']}: {verdict['msg']} [in {verdict['frame']}]"))
     chk.report_violation(key, what, {"sql": msql, "dialect": dialect, "level": level, "write": write, "original": sql if sql != msql else None,
                                      "expect": {"phase": verdict["phase"], "exc": verdict["exc"], "frame": verdict["frame"]}}, ctx)
@@ -1300,7 +1402,7 @@ def search(chk: Check, hints: list, budget_s: float) -> None:
     dialects = all_dialects()
     t0 = time.time()
     tried = failing = 0
-    maxr = {"parse_lin": 0.0, "parse_quad": 0.0, "tok": 0.0, "gen": 0.0}
+    maxr = {"parse_lin": 0.0, "parse_quad": 0.0, "tok": 0.0, "gen": 0.0, "work": 0.0}
     corpus = []
     cdir = os.path.join(os.path.dirname(os.path.dirname(os.path.dirname(os.path.abspath(__file__)))), "corpus", "C05")
     if os.path.isdir(cdir):
@@ -1322,6 +1424,8 @@ def search(chk: Check, hints: list, budget_s: float) -> None:
         if "parse" in st:
             maxr["parse_lin"] = max(maxr["parse_lin"], st["parse"] / (n + 1))
             maxr["parse_quad"] = max(maxr["parse_quad"], st["parse"] / ((n + 1) ** 2))
+        if "work" in st:
+            maxr["work"] = max(maxr["work"], st["work"] / ((n + 1) ** 2))
         if "tokenize" in st:
             maxr["tok"] = max(maxr["tok"], st["tokenize"] / (len(sql) + 1))
         if "generate" in st and v.get("nodes"):
@@ -1339,7 +1443,11 @@ def search(chk: Check, hints: list, budget_s: float) -> None:
             one(sql, d, l2, None, "hint")
     for sql, d, lvl, write in corpus:
         one(sql, d, lvl, write, "corpus")
-    while time.time() - t0 < budget_s and len(chk.violations) < 6:
+    # a fixed number of inputs per tier (deterministic for a given VERIF_SEED), with the time budget as a safety cap
+    n_inputs = int(os.environ.get("C05_INPUTS", "0")) or (chk.pick(2400, 70000) * (2 if chk.broken else 1))
+    for _ in range(n_inputs):
+        if time.time() - t0 > budget_s or len(chk.violations) >= int(os.environ.get("C05_MAX_VIOLATIONS", "8")):
+            break
         d = rng.choice(dialects)
         kind, sql = gen_input(rng, gen, dialect_keywords(d))
         write = rng.choice(dialects) if rng.random() < 0.3 else None
@@ -1349,11 +1457,12 @@ def search(chk: Check, hints: list, budget_s: float) -> None:
     chk.cov["calibration"] = {"K_PARSE": K_PARSE, "K_TOKENIZE": K_TOKENIZE, "K_GENERATE": K_GENERATE,
                               "max_parser_steps_per_token": round(maxr["parse_lin"], 2),
                               "max_parser_steps_per_token_squared": round(maxr["parse_quad"], 3),
+                              "K_WORK": K_WORK, "max_parser_work_per_token_squared": round(maxr["work"], 2),
                               "max_tokenizer_steps_per_char": round(maxr["tok"], 2),
                               "max_generator_calls_per_node": round(maxr["gen"], 2)}
     chk.search_info = {"ran": True, "budget_s": budget_s, "inputs": tried, "failing": failing,
                        "oracle": "tokenize/parse/generate raise only sqlglot.errors.SqlglotError and stay within "
-                                 f"{K_PARSE}(n+1)^2 Parser._advance calls, {K_TOKENIZE}(len+1) TokenizerCore._advance calls, "
+                                 f"{K_PARSE}(n+1)^2 Parser._advance calls, {K_WORK}(n+1)^2+{WORK_CONST} parser work units, {K_TOKENIZE}(len+1) TokenizerCore._advance calls, "
                                  f"{K_GENERATE}(nodes+1) Generator.sql calls; {WATCHDOG_S}s watchdog"}
 
 
@@ -1382,9 +1491,9 @@ def run(chk: Check) -> None:
             if proved:
                 raise
             chk.note(f"model driver unavailable ({e}); continuing with the search on the real code")
-        budget = chk.pick(22, 420)
+        budget = chk.pick(60, 600)
         if chk.broken:
-            budget *= 2.5
+            budget *= 2
         search(chk, hints, budget)
     finally:
         MON.remove()
